@@ -283,6 +283,10 @@ func mutate(t *rapid.T, g *prog.Generated) []string {
 		ri := rapid.IntRange(0, len(g.Prog.Rules)-1).Draw(t, "rule")
 		r := &g.Prog.Rules[ri]
 		fresh := fmt.Sprintf("U%d", i)
+		if rapid.IntRange(0, 2).Draw(t, "libName") == 0 {
+			// the names the library itself generates when it replaces wildcards: a clash must not bind the variable
+			fresh = rapid.SampledFrom([]string{"X0", "X1", "X2"}).Draw(t, "freshLibName")
+		}
 		switch kind := rapid.IntRange(0, 8).Draw(t, "mut"); kind {
 		case 0, 1: // shuffle the body
 			perm := rapid.Permutation(r.Body).Draw(t, "perm")
